@@ -38,6 +38,14 @@ def main():
         verdict["apply_rc"] = rc
         if rc != 0:
             verdict["apply_err"] = out
+        if rc == 0 and ".c" in " ".join(l for l in open(d + "/patch.diff") if l.startswith("+++ ")):
+            # the change is in a generated C file: rebuild the extension(s) it touches in the scratch tree
+            for name in ("cencoding", "speedups"):
+                if ("fastparquet/%s.c" % name) in open(d + "/patch.diff").read():
+                    rc2, out2 = sh("gcc -shared -fPIC -O2 -fwrapv -w -I/venv/lib/python3.12/site-packages/numpy/_core/include "
+                                   "-I/root/.pyenv/versions/3.12.1/include/python3.12 fastparquet/%s.c "
+                                   "-o fastparquet/%s.cpython-312-x86_64-linux-gnu.so" % (name, name), cwd=wt)
+                    verdict["rebuild_" + name] = rc2
         rc, out = sh("%s %s/demo.py" % (PY, d), cwd=wt, env=env, timeout=900)
         verdict["demo_changed_rc"] = rc
         verdict["demo_changed_tail"] = out[-600:]
